@@ -184,6 +184,27 @@ Proof.
   replace (length (rchain a) - (length (rchain a) - sh a) - sh a)%nat with 0%nat by lia. reflexivity.
 Qed.
 
+Lemma prev_check_cases rc b prev :
+  prev_check rc b prev = ROk \/ prev_check rc b prev = RErrNoPrev \/ prev_check rc b prev = RErrPrevMismatch.
+Proof.
+  unfold prev_check. destruct (bheight b =? 1).
+  - destruct (ident_eqb prev (0, 0)); auto.
+  - destruct (by_height rc (u64 (bheight b - 1))) as [p|]; [destruct (ident_eqb (id_of p) prev)|]; auto.
+Qed.
+
+(* the pop loop of a block that names the empty account-chain, on an account without confirmed blocks: everything goes *)
+Lemma pop_until_all rc : forall mid, linked rc -> pop_until rc 0 (0, 0) mid = Some [].
+Proof.
+  induction rc as [|x r0 IH]; intros mid Hl0; [reflexivity|].
+  cbn [pop_until]. pose proof (linked_heights_le _ Hl0) as Hf0. inversion Hf0 as [|? ? Hx _]; subst.
+  destruct Hl0 as [_ [_ Hl1]].
+  destruct (mid && bsend x && (0 <? length (x :: r0))%nat); [apply IH; exact Hl1|].
+  replace (ident_eqb (id_of x) (0, 0)) with false.
+  2:{ symmetry. destruct (ident_eqb (id_of x) (0, 0)) eqn:E; [|reflexivity]. apply ident_eqb_eq in E. inversion E. lia. }
+  replace (length (x :: r0) <=? 0)%nat with false by (symmetry; apply Nat.leb_gt; cbn [length]; lia).
+  apply IH; exact Hl1.
+Qed.
+
 (* what addAccountBlockTransaction does with a transaction (descs = []: a block without descendants).
    A failing pop loop (RErrPop) leaves the manager at its stable version: only when the block named as previous is a
    contract send INSIDE a pooled batch - no version of the account ends there *)
@@ -199,7 +220,7 @@ Lemma add_tx_spec force a descs b a' r : wf a -> wf_tx descs b -> Z.of_nat (leng
      frontier_id below = prev_of (tx_first descs b) /\ (length dropped <= length (rchain a) - sh a)%nat /\
      Forall (fun x => bheight (tx_first descs b) <= bheight x) dropped /\ (descs <> [] -> dropped = [])).
 Proof.
-  intros Hwf [Hu [Hu1 Htx]] Hlen Hadd. pose proof Hwf as [Hl Hs]. unfold add_tx in Hadd.
+  intros Hwf [Hu [Hu1 Htx]] Hlen Hadd. pose proof Hwf as [Hl Hs]. unfold add_tx, add_tx_with in Hadd.
   set (f := tx_first descs b) in *.
   assert (Hsame : forall r0, r0 <> RPanic -> r0 <> RErrPop -> r0 <> ROk -> (a, r0) = (a', r) ->
      wf a' /\ sh a' = sh a /\ confirmed a' = confirmed a /\ r <> RPanic /\
@@ -236,11 +257,37 @@ Proof.
     destruct (by_height (rchain a) (bheight b)) as [t|] eqn:Et.
     + destruct (ident_eqb (id_of t) (id_of b)); [eapply Hsame; [| | |exact Hadd]; discriminate|].
       destruct (bheight b <=? stable_height a) eqn:Eold; [eapply Hsame; [| | |exact Hadd]; discriminate|].
-      destruct (by_height (rchain a) (u64 (bheight b - 1))) as [p|] eqn:Ep; [|eapply Hsame; [| | |exact Hadd]; discriminate].
-      destruct (ident_eqb (id_of p) (prev_of f)) eqn:Epp; cbn [negb] in Hadd; [|eapply Hsame; [| | |exact Hadd]; discriminate].
-      apply ident_eqb_eq in Epp.
+      destruct (prev_check_cases (rchain a) b (prev_of f)) as [Echk|[Echk|Echk]]; rewrite Echk in Hadd;
+        [|eapply Hsame; [| | |exact Hadd]; discriminate|eapply Hsame; [| | |exact Hadd]; discriminate].
       destruct (negb force && negb (higher_priority b t =? 0)) eqn:Epr.
       { destruct (higher_priority b t =? 1); (eapply Hsame; [| | |exact Hadd]; discriminate). }
+      unfold prev_check in Echk. destruct (bheight b =? 1) eqn:Eh1.
+      { (* the first block of the account: it names the empty account-chain, everything pooled is popped *)
+        destruct (ident_eqb (prev_of f) (0, 0)) eqn:Ez; [|discriminate]. apply ident_eqb_eq in Ez.
+        apply Z.eqb_eq in Eh1. apply Z.leb_gt in Eold.
+        assert (Hsh0 : sh a = 0%nat) by lia.
+        assert (Hdescs : descs = []).
+        { destruct descs as [|d ds]; [reflexivity|]. exfalso.
+          assert (Hinc : forall l x, tx_linked (x :: l ++ [b]) -> bheight x < bheight b).
+          { clear. induction l as [|y l IH]; intros x H.
+            - cbn [app] in H. destruct H as [[_ H] _]. lia.
+            - cbn [app] in H. destruct H as [[_ H1] H2]. specialize (IH y H2). lia. }
+          unfold f in *. cbn [tx_first] in *. cbn [app] in Htx. specialize (Hinc ds d Htx).
+          assert (E2 : snd (prev_of d) = 0) by (rewrite Ez; reflexivity). unfold prev_of in E2. cbn [snd] in E2.
+          unfold in_u64, u64, two63, two64 in *. lia. }
+        subst descs. cbn [tx_first] in f. subst f. cbn [rev app length tx_first] in *.
+        rewrite Ez, Hsh0, (pop_until_all _ false Hl) in Hadd. inversion Hadd; subst a' r. clear Hadd.
+        cbn [rchain sh length].
+        split; [split; [cbn [linked frontier_id snd]; split; [exact Ez|split; [change (frontier_id (@nil block)) with (0, 0); cbn [snd]; lia|exact I]]|cbn [rchain sh length]; lia]|].
+        split; [symmetry; exact Hsh0|].
+        split; [unfold confirmed; cbn [rchain sh length skipn Nat.sub]; rewrite Hsh0, Nat.sub_0_r, skipn_all; reflexivity|].
+        split; [discriminate|]. split; [lia|]. split; [reflexivity|]. split; [congruence|]. split; [discriminate|].
+        intros _. exists (rchain a), []. split; [symmetry; apply app_nil_r|]. split; [reflexivity|]. split; [symmetry; exact Ez|].
+        split; [rewrite Hsh0; lia|]. split; [|congruence].
+        eapply Forall_impl; [|apply linked_heights_le; exact Hl]. cbn. intros x Hx. lia. }
+      destruct (by_height (rchain a) (u64 (bheight b - 1))) as [p|] eqn:Ep; [|discriminate].
+      destruct (ident_eqb (id_of p) (prev_of f)) eqn:Epp; [|discriminate]. clear Echk.
+      apply ident_eqb_eq in Epp.
       pose proof (by_height_some _ _ _ Ep) as [Hinp Hhp].
       pose proof (linked_heights_le _ Hl) as Hf. rewrite Forall_forall in Hf. pose proof (Hf p Hinp) as Hpr.
       assert (Hb1 : bheight b - 1 = bheight p) by (unfold in_u64, u64, two63, two64 in *; lia).
@@ -306,10 +353,19 @@ Proof.
         -- exfalso. destruct (pop_until_reach (rchain a) (sh a) (u64 (bheight b - 1)) p false Hl Ep ltac:(lia) ltac:(left; exact Esp)) as [pre [r' [_ [E2 _]]]].
            rewrite <- Epp in Epop. congruence.
     + destruct (bheight b <=? stable_height a) eqn:Eold; [eapply Hsame; [| | |exact Hadd]; discriminate|].
-      destruct (by_height (rchain a) (u64 (bheight b - 1))) as [p|] eqn:Ep; [|eapply Hsame; [| | |exact Hadd]; discriminate].
-      destruct (ident_eqb (id_of p) (prev_of f)) eqn:Epp; cbn [negb] in Hadd; [|eapply Hsame; [| | |exact Hadd]; discriminate].
+      destruct (prev_check_cases (rchain a) b (prev_of f)) as [Echk|[Echk|Echk]]; rewrite Echk in Hadd;
+        [|eapply Hsame; [| | |exact Hadd]; discriminate|eapply Hsame; [| | |exact Hadd]; discriminate].
+      exfalso. unfold prev_check in Echk. destruct (bheight b =? 1) eqn:Eh1.
+      { (* a first block that names the empty account-chain: fast-forward on an empty chain, or a block of height 1 exists *)
+        destruct (ident_eqb (prev_of f) (0, 0)) eqn:Ez; [|discriminate]. apply ident_eqb_eq in Ez. apply Z.eqb_eq in Eh1.
+        destruct (rchain a) as [|x r0] eqn:Erc.
+        - rewrite Ez in Eff. cbn in Eff. discriminate.
+        - destruct (linked_has_height (x :: r0) 1 Hl ltac:(cbn [length]; lia)) as [t [Hint Ht]].
+          unfold by_height in Et. pose proof (find_none _ _ Et t Hint) as Hn. cbn in Hn. lia. }
+      destruct (by_height (rchain a) (u64 (bheight b - 1))) as [p|] eqn:Ep; [|discriminate].
+      destruct (ident_eqb (id_of p) (prev_of f)) eqn:Epp; [|discriminate]. clear Echk.
       (* unreachable: the previous block exists, so either the transaction extends the frontier (fast-forward) or a block at its height exists *)
-      exfalso. apply ident_eqb_eq in Epp.
+      apply ident_eqb_eq in Epp.
       pose proof (by_height_some _ _ _ Ep) as [Hinp Hhp].
       pose proof (linked_heights_le _ Hl) as Hf. rewrite Forall_forall in Hf. pose proof (Hf p Hinp) as Hpr.
       assert (Hb1 : bheight b - 1 = bheight p) by (unfold in_u64, u64, two63, two64 in *; lia).
@@ -342,6 +398,34 @@ Proof.
   intros Hwf Hu Hlen Hadd. unfold add in Hadd.
   destruct (add_tx_spec force a [] b a' r Hwf (wf_tx_single b Hu) Hlen Hadd) as [H1 [H2 [H3 [H4 [H5 [H6 [H7 [H8 _]]]]]]]].
   cbn [length tx_first] in *. split; [exact H1|]. split; [exact H2|]. split; [exact H3|]. split; [exact H4|]. split; [lia|]. split; [exact H6|]. split; [exact H7|exact H8].
+Qed.
+
+(* a competitor for the FIRST block of an account (height 1, it names the empty account-chain): with nothing of the
+   account confirmed it replaces the whole pooled chain when it is forced or wins against the pooled first block
+   (canRollback after fix 417e0a5) *)
+Lemma first_block_replaced force a b t : wf a -> sh a = 0%nat -> bheight b = 1 -> bprev b = 0 ->
+  by_height (rchain a) 1 = Some t -> bhash t <> bhash b -> (force = true \/ wins b t) ->
+  add force a b = (mkAcct [b] 0, ROk).
+Proof.
+  intros Hwf Hs0 Hh Hp Ht Hne Hw. pose proof Hwf as [Hl _].
+  unfold add, add_tx, add_tx_with. cbn [tx_first].
+  assert (Hprev : prev_of b = (0, 0)) by (unfold prev_of; rewrite Hh, Hp; reflexivity).
+  rewrite Hprev.
+  pose proof (by_height_some _ _ _ Ht) as [Hin Hht].
+  assert (Hff : ident_eqb (0, 0) (frontier_id (rchain a)) = false).
+  { destruct (ident_eqb (0, 0) (frontier_id (rchain a))) eqn:E; [|reflexivity]. apply ident_eqb_eq in E.
+    pose proof (linked_height _ Hl) as Hx. rewrite <- E in Hx. cbn [snd] in Hx.
+    destruct (rchain a); [contradiction|cbn [length] in Hx; lia]. }
+  rewrite Hff, Hh, Ht.
+  replace (ident_eqb (id_of t) (id_of b)) with false.
+  2:{ symmetry. destruct (ident_eqb (id_of t) (id_of b)) eqn:E; [|reflexivity]. apply ident_eqb_eq in E. inversion E. congruence. }
+  rewrite (stable_height_is_sh a Hwf), Hs0.
+  replace (1 <=? Z.of_nat 0) with false by reflexivity.
+  unfold prev_check. rewrite Hh. replace (1 =? 1) with true by reflexivity.
+  replace (ident_eqb (0, 0) (0, 0)) with true by reflexivity.
+  replace (negb force && negb (higher_priority b t =? 0)) with false.
+  2:{ symmetry. destruct Hw as [->|Hw]; [reflexivity|]. unfold wins in Hw. rewrite Hw. destruct force; reflexivity. }
+  rewrite (pop_until_all _ false Hl). reflexivity.
 Qed.
 
 (* the pooled chain has no contract send for a block to name as its parent: user accounts, and contracts whose receives
